@@ -186,6 +186,11 @@ Theorem acked_sample_is_indexed : forall h, all_indexed_typed (run init h) = tru
 Proof. exact acked_indexed_typed_all. Qed.
 Print Assumptions acked_sample_is_indexed.
 
+(* ... and in cluster mode (the cache answers "not seen" and stores nothing: every push announces its series again) *)
+Theorem acked_sample_is_indexed_cluster_mode : forall h, all_indexed_typed (run_dist init h) = true.
+Proof. exact acked_indexed_typed_dist. Qed.
+Print Assumptions acked_sample_is_indexed_cluster_mode.
+
 (* the day-only form of the same statement (the form of the property text) *)
 Theorem acked_sample_is_indexed_by_day : forall h, all_indexed (run init h) = true.
 Proof. exact acked_indexed_all. Qed.
